@@ -1,7 +1,7 @@
 use cfg_if::cfg_if;
-use lazy_static::lazy_static;
+use crate::vsync::lazy_static;
 pub use log::{debug, error, info, trace, warn};
-use std::sync::Once;
+use crate::vsync::Once;
 
 lazy_static! {
     pub static ref FREQUENT_ERROR_ONCE: Once = Once::new();
